@@ -311,13 +311,24 @@ def propagate(case, ctx):
         for kind, el in elems:
             if kind.endswith("before"):
                 w = w * el
-        w = w * pupil
+        w_mid = w * pupil
+        w = w_mid
         for kind, el in elems:
             if kind.endswith("after"):
                 w = w * el
+        # the intermediate wavefront is used a second time for the same chain (field-point scans do this)
+        w_again = w_mid
+        for kind, el in elems:
+            if kind.endswith("after"):
+                w_again = w_again * el
     kw = {} if case["prop_shape"] is None else {"prop_shape": tuple(case["prop_shape"])}
     with lentil_call("C04.propagate", "propagate_dft"):
+        out_again = lentil.propagate_dft(w_again, pixelscale=du, shape=tuple(case["out_shape"]), oversample=os_, **kw)
         out = lentil.propagate_dft(w, pixelscale=du, shape=tuple(case["out_shape"]), oversample=os_, **kw)
+    fa, fb = out.field, out_again.field
+    if fa.shape != fb.shape or cm.max_abs(fa - fb) > 1e-12 * max(cm.max_abs(fa), 1e-300):
+        raise Violation("C04.propagate.reuse", "building the same chain a second time from the same intermediate wavefront "
+                                               "gives a different propagated field")
     alpha = pm.alpha(dx, du, wl, z, os_)
     check_tilted_output("C04.propagate", out, segs, full, win, alpha, extra_tol=2.0)
 
